@@ -1,5 +1,6 @@
 import SlugModel.Lemmas.PathSegs
 import SlugModel.Lemmas.FSFrame
+import SlugModel.Lemmas.UnpackBasic
 /-!
 # Lemmas/UnpackInv — the filesystem invariant is kept by every step of `Unpack`
 
@@ -276,7 +277,7 @@ theorem validSymlink_eq (cwd dst ln t : Str) (hdst : DstOK dst) (hln : isAbs ln 
     validSymlink cwd [] dst ln t =
       isWithin dst (if isAbs t then pathClean t else pathJoin (pathDir (pathJoin dst ln)) t) := by
   unfold validSymlink
-  simp only [pathAbs_absClean cwd dst hdst.absClean, hln, List.any_nil, Bool.false_eq_true, if_false]
+  simp only [pathAbs_absClean cwd dst hdst.absClean, hln, allowedTarget_nil, Bool.false_eq_true, if_false]
   cases isWithin dst (if isAbs t = true then pathClean t else pathJoin (pathDir (pathJoin dst ln)) t) <;> rfl
 
 /-- an accepted link target is lexically inside `dst` from the directory of the extraction path -/
@@ -391,7 +392,8 @@ theorem unpackEntry_ok {dstP : PPath} {cwd dst : Str} {priv : Bool} {st : UState
             split
             · exact hst1
             · rename_i hv
-              have hv' : validSymlink cwd [] dst ln e.link = true := by simpa using hv
+              have hv' : validSymlink cwd [] dst ln e.link = true :=
+                unpackLinkOK_valid (by simpa using hv)
               split
               · exact hst1
               · rename_i fs2 hs2
